@@ -512,6 +512,7 @@ def gen_C12(rng, tier):
     acc = ["len", "is_empty", "range", "last_line", "payload_size"]
     out += index_lag_battery(rng, acc + ["read_all s=U e=U"])
     out += empty_reopen_battery(acc + ["read_all s=U e=U"])
+    out += many_sections_battery(acc)
     # "the contents" are what a full read returns: accessors and the full read side by side on files
     # with a section header near the end of a read buffer
     out += reader_buffer_end_battery(tier, acc + ["read_all s=U e=U"])
@@ -810,6 +811,31 @@ def big_torn_battery(ops_after):
     return out
 
 
+def many_sections_battery(ops_after):
+    """more than 4096 (and more than 8192) full-timestamp sections - an index file beyond 64 KiB / 128 KiB:
+    plain close and reopen, the accessors, the append rule relative to the last line, a bounded read at the end"""
+    out = []
+    for p, count in ((4, 4200), (0, 8300)):
+        h = Hist(p)
+        h.new()
+        h.pushrun(300000, 300000, count, 9)
+        h.reopen()
+        for a in ops_after:
+            h.op(a)
+        last = h.last()
+        for t in (last, h.ts[-100], h.ts[4090], last + 1):
+            h.op(f"push ts={t} pl={hexs(bytes(p))}")
+            h.op("range")
+        h.op(f"read_all s=I:{h.ts[-3]} e=U")
+        h.op(f"read_all s=I:{h.ts[4094]} e=I:{h.ts[4098]}")
+        h.op("close")
+        h.op("open p=any hdr=any caches=- cb=none ext=0")
+        for a in ops_after:
+            h.op(a)
+        out.append((f"many-sections-p{p}-{count}", h.script()))
+    return out
+
+
 def gen_C03(rng, tier):
     out = refusals_with_caches_battery(rng, tier, ["files", "len", "range"])
     for h0 in _histories(rng, tier, PAYLOADS_SMALL):
@@ -845,6 +871,7 @@ def gen_C03(rng, tier):
     out += torn_tail_battery(rng)
     out += index_lag_battery(rng, ["range", "len", "last_line"])
     out += big_torn_battery(["range", "len", "last_line"])
+    out += many_sections_battery(["range", "len", "last_line"])
     out += stale_bucket_battery(tier)         # appends after a tear must be accepted with caches too
     return out
 
@@ -2003,8 +2030,45 @@ def gen_C11(rng, tier):
 
 # ====================================================================== C16 C17 C18 C19
 
+def uniform_payload_battery(ops_after):
+    """the last lines of the file carry payloads of one repeated byte (00, FF, 0A, 20): a one-line last
+    section, a one-line series, two such lines - closed, reopened (with and without a cache), looked at;
+    an open of an undamaged series changes no byte"""
+    out = []
+    for p in [1, 4, 8]:
+        for fill in (0x00, 0xFF, 0x0A, 0x20):
+            for shape in ("one-line-section", "single-line", "two-lines"):
+                for caches in ([], [2]):
+                    h = Hist(p, caches=caches)
+                    h.new()
+                    pl = bytes([fill] * p)
+                    if shape == "single-line":
+                        h.push(1000, pl=pl)
+                    else:
+                        for t in (1000, 1010, 1020):
+                            h.push(t, pl=bytes([7] * p))
+                        h.push(200000, pl=pl)
+                        if shape == "two-lines":
+                            h.push(200001, pl=pl)
+                    if not marker_free(p, h.ts):
+                        continue
+                    h.op("files")
+                    h.reopen()
+                    for a in ops_after:
+                        h.op(a)
+                    h.op("close")
+                    h.op("files")
+                    h.open()
+                    h.push(h.last() + 1, pl=pl)
+                    h.op("close")
+                    h.op("files")
+                    out.append((f"uniform-payload-p{p}-{fill:02x}-{shape}-c{len(caches)}", h.script()))
+    return out
+
+
 def gen_C16(rng, tier):
     out = marker_word_battery(["read_all s=U e=U", "len"])
+    out += uniform_payload_battery(["read_all s=U e=U", "len", "range", "last_line"])
     # opens that repair or recreate a cache must leave the series' own files alone
     out += [x for x in error_path_battery(tier) if x[0].startswith("cache-header")]
     out += [(n, s.replace("files\n", "files\nread_all s=U e=U\nlen\n")) for n, s in emptied_cache_battery(tier)[:4]]
